@@ -14,6 +14,7 @@ pub struct View<'a, H, E> {
 /// Build (header, elements) inside the window, construct, inspect, release; all accounting checked.
 pub fn eval<H: Hdr, E: Elem, B>(g: &mut Grid, case: &str, class: String, n: usize, slack: usize, construct: impl FnOnce(H, Vec<E>) -> B, view: impl for<'a> Fn(&'a B) -> View<'a, H, E>) {
     vrt::begin_execution();
+    g.begin(case);
     let zst = std::mem::size_of::<E>() == 0;
     let (h, v, hid, ids) = cap(|| {
         let h = H::make();
@@ -194,6 +195,7 @@ impl CopyEl for C16 {
 
 fn copy_case<B>(g: &mut Grid, case: String, class: String, expect_live: usize, construct: impl FnOnce() -> B, check: impl Fn(&B) -> Option<String>) {
     vrt::begin_execution();
+    g.begin(&case);
     let b = match catch(|| cap(construct)) {
         Ok(b) => b,
         Err(m) => {
